@@ -52,13 +52,14 @@ def make_hdu(R, C, hdrkind, affine, seed):
     else:
         h['CD1_1'] = -0.0071
         h['CD2_2'] = 0.0071
-        h['CD1_2'] = 0.0
-        h['CD2_1'] = 0.0
+        # a slightly rotated / skewed CD matrix: every CD keyword must come back unchanged
+        h['CD1_2'] = rng.choice([0.0, 0.0005, -0.0011])
+        h['CD2_1'] = rng.choice([0.0, 0.0007, -0.0003])
     return hdu, img
 
 
 WCSKEYS = {"cdelt": ['CRPIX1', 'CRPIX2', 'CDELT1', 'CDELT2'],
-           "cd": ['CRPIX1', 'CRPIX2', 'CD1_1', 'CD2_2']}
+           "cd": ['CRPIX1', 'CRPIX2', 'CD1_1', 'CD2_2', 'CD1_2', 'CD2_1']}
 
 
 def observe(args):
@@ -105,7 +106,7 @@ def observe(args):
             if k not in h:
                 rec["wcsdev"].append(10 ** 6)
             else:
-                rec["wcsdev"].append(min(10 ** 6, int(round(abs(h[k] - orig[k]) / abs(orig[k]) * 1e12))))
+                rec["wcsdev"].append(min(10 ** 6, int(round(abs(h[k] - orig[k]) / (abs(orig[k]) or 1e-3) * 1e12))))
         rec["bnleft"] = any(k.startswith("BN_") for k in h.keys())
         if hasattr(exp, "close"):
             exp.close()
